@@ -17,10 +17,12 @@ def has (j : Json) (k : String) : Bool := (j.getObjVal? k).toOption.isSome
 def optStr (j : Json) (k : String) : Option String :=
   match j.getObjVal? k with | .ok (.str s) => some s | _ => none
 
+/-- the kinds of the rows of the (pinned = regenerated) prefix table `ref2To3`, in its order -/
+def refKinds : List (RK × RK) := [(.def2, .def3), (.resp2, .resp3), (.par2, .par3)]
+
 def prefixes : List (String × RK) :=
-  [("#/definitions/", .def2), ("#/parameters/", .par2), ("#/responses/", .resp2),
-   ("#/components/schemas/", .def3), ("#/components/parameters/", .par3),
-   ("#/components/responses/", .resp3), ("#/components/requestBodies/", .rb3)]
+  (ref2To3.zip refKinds).flatMap (fun (ps, ks) => [(ps.1, ks.1), (ps.2, ks.2)]) ++
+  [("#/components/requestBodies/", .rb3)]
 
 def parseRef (s : String) : RK × String :=
   match prefixes.find? (fun (p, _) => s.startsWith p) with
